@@ -2,7 +2,7 @@ SPECIFICATION Spec
 CONSTANTS
   NF = 2
   MaxLen = 8
-  Kinds = {"mod", "add", "addempty", "del", "rename", "renmod", "copy", "modeonly", "modemod", "bin", "binadd", "modebin", "renmode", "sublog", "subshort"}
+  Kinds = {"mod", "add", "addempty", "del", "rename", "renmod", "copy", "modeonly", "modemod", "bin", "binadd", "modebin", "renmode", "sublog", "subshort", "binx"}
   MaxHunks = 2
   MaxBody = 3
   Preamble = TRUE
